@@ -101,7 +101,7 @@ Section Progress.
   Proof.
     intros Hs Hp Hseq Hlt H.
     destruct (writeRecord_step_chain P Hok Hexp typ c data c1 rec_ m Hs H) as [Hs1 [Hm [Hch [Hcn He]]]].
-    inversion Hch as [|? hc1 ? eiv fr ? ? ? Hel Heb Hfr Henc Hnil]; subst.
+    inversion Hch as [|? hc1 ? eiv fr ? ? ? Hel Heb Hnon Hfr Henc Hnil]; subst.
     inversion Hnil; subst.
     destruct (encrypt_fields P _ _ _ _ _ Henc) as [_ [_ [Hmac [Hk Hl]]]].
     split; [exact Hs1|]. split; [eapply protected_kind; eassumption|].
